@@ -38,6 +38,14 @@ def case(job):
     tc, tt = gen_template(rng, cli_c), gen_template(rng, cli_t)
     names = [gen_name(rng, i) for i in range(rng.randrange(1, 4))]
     light = rng.random() < 0.15
+    # the boundary template: an EMPTY template given on the command line overrides a non-empty configured one (the configured one is a distractor
+    # that must not reach the VCS): an empty commit message, and no tag message at all = a lightweight tag
+    empty_c = cli_c and rng.random() < 0.12
+    empty_t = cli_t and not light and rng.random() < 0.12
+    if empty_c:
+        tc = ""
+    if empty_t:
+        tt = ""
     with drive.scratch_dir("c12") as d:
         proj = project.Project(os.path.join(d, "p"), vcs=tool)
         fv = fakevcs.FakeVCS(os.path.join(d, "fake"), tool)
@@ -48,8 +56,12 @@ def case(job):
         extra = {}
         if not cli_c:
             extra["commit_message"] = tc
+        elif empty_c:
+            extra["commit_message"] = "configured commit message {new_version} that the command line overrides"
         if not cli_t or light:
             extra["tag_message"] = "" if light else tt
+        elif empty_t:
+            extra["tag_message"] = "configured tag message {new_version} that the command line overrides"
         proj.write("bumpver.toml", project.bumpver_toml(OLD, VP, [(n, ["{version}"]) for n in names], commit=True, tag=True, push=True, extra=extra))
         for n in names:
             proj.write(n, "version %s\n" % OLD)
@@ -90,6 +102,7 @@ def case(job):
         ev["dbg"] = "%s %s argv=%r | commit tmpl(%s)=%r tag tmpl(%s)=%r files=%r" % (tool, e[1], argv, "cli" if cli_c else "cfg", tc, "cli" if cli_t else "cfg", tt, names)
         evs.append(ev)
     facts = dict(unknown_cmds=[e[2] for e in raw if e[0] == "cmd" and e[1] == "unknown"], seed=seed, tool=tool, exit=r.exit, exc=r.exc or "", names=names, added=sorted(added), tc=tc, tt=tt, cli_c=cli_c, cli_t=cli_t, light=light,
+                 empty_cli_template=empty_c or empty_t, annotated_tag_despite_empty_template=(light or empty_t) and any(e["name"] == "tag" for e in evs),
                  n_cmds=len(evs), quote=any(q in (tc + tt + "".join(names)) for q in "'\"\\"))
     return evs, facts
 
@@ -170,11 +183,13 @@ def run(ctx):
         if f["clause"].startswith("skip:"):
             skipped += 1
             continue
-        ctx.violation(dict(clause=f["clause"], command=e["name"], tool=e["tool"]), case=dict(what=e["dbg"]), expected=f["detail"][:300])
+        ctx.violation(dict(clause=f["clause"], command=e.get("name", "real git: message read back"), tool=e.get("tool", "git")), case=dict(what=e["dbg"]), expected=f["detail"][:300])
     crashed = 0
     for _evs, f in results:
         if f.get("unknown_cmds"):
             ctx.violation(dict(clause="argv:unknown-vcs-command"), case=f)
+        if f.get("annotated_tag_despite_empty_template"):
+            ctx.violation(dict(clause="argv:tag-message-added (the given tag message template is empty: lightweight tag expected)", empty_cli_template=f["empty_cli_template"]), case=f)
         complete = f["exit"] == 0
         if f["exc"] and "SystemExit" not in f["exc"]:
             crashed += 1
@@ -185,6 +200,7 @@ def run(ctx):
         elif complete and sorted(f["added"]) != sorted(f["names"] + ["bumpver.toml"]) and sorted(f["added"]) != sorted(f["names"]):
             ctx.violation(dict(clause="argv:staged-paths-differ-from-configured"), case=f)
     ctx.count("runs", len(results))
+    ctx.count("runs_with_empty_cli_template", sum(1 for _e, f in results if f["empty_cli_template"]))
     ctx.count("runs_completed", sum(1 for _e, f in results if f["exit"] == 0))
     ctx.count("argv_events", len(events))
     ctx.count("skipped_templates", skipped)
@@ -197,7 +213,7 @@ def run(ctx):
     for e in events:
         ctx.nontriv(e["dbg"])
     ctx.rule = ("seeded runs of the real `update` (commit, tag, push on; fake git, every 4th fake hg) with commit/tag message templates from the config or the command line built from "
-                "hostile symbols (quotes, backslash, $, backticks, leading dashes, newline, non-ASCII), documented placeholders, OLD/NEW shorthand and near-misses, and 1..3 configured "
+                "hostile symbols (quotes, backslash, $, backticks, leading dashes, newline, non-ASCII), documented placeholders, OLD/NEW shorthand and near-misses, the empty template on the command line over a non-empty configured one, and 1..3 configured "
                 "files with hostile names; one `argv` event per mutating VCS command; non-trivial = distinct (command, argv)")
     for e in events[:3]:
         ctx.sample(dict(what=e["dbg"][:300]))
